@@ -410,6 +410,10 @@ func allChecks() []CheckSpec {
 					Bounds: "1 (quick) / 2 (thorough) local + 1 remote, 0..2 outstanding transactions with optional 24-bit values", MustReach: []string{"controlling-nomination-response", "valued", "done"}},
 				{Fn: "verifC20Deferred", Lemma: "two steps: accepted nomination on a not-yet-valid pair, then its matched response => that pair is selected whatever the priorities",
 					Bounds: "2 pairs, symbolic priorities and nomination values (24 bit)", MustReach: []string{"done"}},
+				{Fn: "verifC20DeferredSuperseded", Lemma: "three steps through the real handlers on a controlled agent: value v1 arrives on a not-yet-valid pair B (deferred), value v2 on the valid pair A, then B's own check succeeds: for all values and priorities the final selection is the pair of the greater value — A if v2 > v1 (a superseded deferred nomination does not take the selection back), B otherwise",
+					Bounds: "2 local + 1 remote candidates, 24-bit values, priorities 1..256", MustReach: []string{"superseded", "stale-second", "done"}},
+				{Fn: "verifC20ControllingReorder", Lemma: "the controlling side renominates pair A (value v) and then pair B (value v+1) through the real RenominateCandidate; the two authenticated success responses arrive in order or reordered (the older one last): afterwards it sits on B, the pair of the highest value it issued",
+					Bounds: "2 local + 1 remote candidates, any 24-bit starting value, priorities 1..256, both arrival orders", MustReach: []string{"in-order", "reordered", "done"}},
 				{Fn: "verifC20Renominate", Lemma: "RenominateCandidate: controlled or feature-off => error and nothing sent; otherwise one request with USE-CANDIDATE and the generator's value, recorded with it",
 					Bounds: "both roles x feature on/off, any 32-bit generator value", MustReach: []string{"renominated", "valued", "done"}},
 				{Fn: "verifC20Codec", Lemma: "nomination values below 2^24 survive encode/decode", Bounds: "all 32-bit values", MustReach: []string{"done"}},
